@@ -416,3 +416,7 @@ br('C03', 'seed2-poll-none-becomes-nonblocking', (U, "        if time == 0:\n   
 ok('poll-typo-fixed-properly', (U, "        if time == 0:\n            return self._pipe.poll()\n        else:\n            return self._pipe.poll(timeout)", "        if timeout == 0:\n            return self._pipe.poll()\n        else:\n            return self._pipe.poll(timeout)"))
 br('C08', 'seed2-redistribution-fixed-count', (PO, "                while self._retries:\n                    idle = get_next_idle_worker()", "                for _ in range(len(self._retries)):\n                    idle = get_next_idle_worker()"), 'redistribution-loop')
 br('C06', 'seed2-marker-forwarded-conditionally', (PRM, "                        self._results_pipe.child_end.put(result)\n                        last_partial_result_signalled = True\n                        if remote_counter != counter:", "                        if remote_counter == counter:\n                            self._results_pipe.child_end.put(result)\n                        last_partial_result_signalled = True\n                        if remote_counter != counter:"), 'exit-without-marker')
+
+br('C03', 'frame-ident-overwritten-in-init-child', (PE, "    def _init_child(self):\n        self._counter = 0", "    def _init_child(self):\n        self._ident = None\n        self._counter = 0"), 'unexpected-writer:_ident')
+br('C04', 'frame-remote-dead-reset-in-enqueue', (PRM, "        try:\n            send_msg(self._socket, (args, kwargs), comment='data: new args')", "        self._remote_dead = False\n        try:\n            send_msg(self._socket, (args, kwargs), comment='data: new args')"), 'unexpected-writer:_remote_dead')
+br('C06', 'frame-cleaned-up-preset', (PT, "    def _send_result(self, result):\n        self._counter += 1", "    def _send_result(self, result):\n        self._cleaned_up = result is None\n        self._counter += 1"), 'unexpected-writer:_cleaned_up')
